@@ -10,7 +10,10 @@ import (
 	"errors"
 	"fmt"
 	"go/token"
+	"os"
+	"path/filepath"
 	"strings"
+	"sync"
 
 	"golang.org/x/tools/go/analysis"
 
@@ -71,15 +74,16 @@ type armed struct {
 }
 
 type disk struct {
-	files   map[string][]byte
-	faults  map[string]*armed
-	served  map[string][][]byte // every version successfully served, per name
-	failed  map[int]map[string]bool
-	curRep  int
-	log     *core.Hasher
-	agg     *core.Agg
-	reads   int
-	callErr bool // a read failed during the current report call
+	files    map[string][]byte
+	faults   map[string]*armed
+	served   map[string][][]byte         // every version successfully served, per name
+	servedTo map[int]map[string][][]byte // ... and per reporter
+	failed   map[int]map[string]bool
+	curRep   int
+	log      *core.Hasher
+	agg      *core.Agg
+	reads    int
+	callErr  bool // a read failed during the current report call
 }
 
 var errEIO = errors.New("simdisk: input/output error")
@@ -133,6 +137,13 @@ func (d *disk) ReadFile(name string) ([]byte, error) {
 	}
 	out := append([]byte{}, content...)
 	d.served[name] = append(d.served[name], out)
+	if d.servedTo == nil {
+		d.servedTo = map[int]map[string][][]byte{}
+	}
+	if d.servedTo[d.curRep] == nil {
+		d.servedTo[d.curRep] = map[string][][]byte{}
+	}
+	d.servedTo[d.curRep][name] = append(d.servedTo[d.curRep][name], out)
 	d.log.Int(len(out))
 	d.log.Bytes(out)
 	return append([]byte{}, out...), nil
@@ -292,7 +303,29 @@ func clip(s string, n int) string {
 
 // ---------------------------------------------------------------- engine glue
 
+var decoyOnce sync.Once
+
+// ensureDecoys writes the decoy files (idempotent; same bytes from every process).
+func ensureDecoys() {
+	decoyOnce.Do(func() {
+		os.MkdirAll(DecoyDir, 0o755)
+		var b strings.Builder
+		for i := 1; i <= 140; i++ {
+			fmt.Fprintf(&b, "DECOY line %d: this text is on the real disk only, the simulated disk never serves it\n", i)
+		}
+		for _, n := range []string{"f0.go", "f1.go", "f2.go", "generated.y"} {
+			p := filepath.Join(DecoyDir, n)
+			if old, err := os.ReadFile(p); err != nil || string(old) != b.String() {
+				tmp := p + fmt.Sprintf(".%d", os.Getpid())
+				os.WriteFile(tmp, []byte(b.String()), 0o644)
+				os.Rename(tmp, p)
+			}
+		}
+	})
+}
+
 func (e Engine) Run(t *core.Tape, opt core.RunOpt, agg *core.Agg) *core.Violation {
+	ensureDecoys()
 	if opt.Leg == "pipeline" {
 		return e.runPipe(t, agg)
 	}
@@ -315,6 +348,7 @@ func (e Engine) finish(c *Case, agg *core.Agg) *core.Violation {
 }
 
 func (e Engine) ReplayCase(raw json.RawMessage, opt core.RunOpt, agg *core.Agg) (*core.Violation, error) {
+	ensureDecoys()
 	var wrap struct {
 		Pipeline *PipeCase `json:"pipeline"`
 	}
